@@ -30,13 +30,31 @@ def top_class(two):
     return _TOPS[two]
 
 
+_SUBS = {}
+
+
+def inherited(base, beh):
+    """the instance's class: the declaring class itself, a subclass or a grandchild of it (the dependent
+    method is then inherited through 0, 1 or 2 levels) -- chosen per behaviour, deterministically"""
+    import json
+    import zlib
+    depth = zlib.crc32(json.dumps(beh, sort_keys=True).encode()) % 3
+    key = (base, depth)
+    if key not in _SUBS:
+        cls = base
+        for i in range(depth):
+            cls = type("%s_s%d" % (base.__name__, i + 1), (cls,), {})
+        _SUBS[key] = cls
+    return _SUBS[key]
+
+
 def replay(beh, opts):
     steps = beh["steps"]
     st0 = steps[0]
     leaves = {k: Leaf(name="leaf", x=v["x"], y=v["y"]) for k, v in asmap(st0["leaf"]).items()}
     m2 = {k: Mid2(name="m2", d=leaves.get(v)) for k, v in asmap(st0["m2d"]).items()}
     m1 = {k: Mid1(name="m1", b=m2.get(v)) for k, v in asmap(st0["m1b"]).items()}
-    top = top_class(st0["two"])(a=m1.get(st0["ta"]))
+    top = inherited(top_class(st0["two"]), beh)(a=m1.get(st0["ta"]))
     top._log = []
     res = {"status": "ok", "nontrivial": False, "kf": []}
     for i, st in enumerate(steps):
